@@ -50,6 +50,7 @@ def gen_parts(self, g, st, spec, allow_values=False):
     st2.plan, st2.plan_pos = getattr(st, "plan", []), getattr(st, "plan_pos", 0)
     npc = len(st.pc)
     nobl = len(self.obls)
+    npend = len(getattr(self, "pending_raises", None) or [])
     self.assign(comp.target, desc.item(k), st2, comp)
     conds = [self.truthy(self.ev(c, st2, spec), st2) for c in comp.ifs]
     if filt is not None:
@@ -61,6 +62,9 @@ def gen_parts(self, g, st, spec, allow_values=False):
     st2.pc = st.pc
     elt = self.ev(g.elt, st2, spec)
     guard = z3.And(0 <= k, k < desc.count)
+    # an exception raised (through a callee's contract) while evaluating the element is raised for SOME index in range that passes the filter
+    for (_exc, rst) in (getattr(self, "pending_raises", None) or [])[npend:]:
+        rst.assume(guard, cond)
     # universally close the facts that mention k; fresh symbols of the element evaluation that occur in such facts are
     # per-element values: they become Skolem functions of k
     new = st.pc[npc:]
